@@ -9,9 +9,10 @@ from vlib.fsmt.equiv import Prog, check_equiv, replay_equiv
 
 class Case:
     def __init__(self, name, src, entry, sizes, apply, group, absent=(), include_locals=(), unwind=5, must_change=True,
-                 note=''):
+                 note='', raise_is_violation=False):
         self.name, self.src, self.entry, self.sizes, self.apply, self.group = name, src, entry, sizes, apply, group
         self.absent, self.include_locals, self.unwind, self.must_change, self.note = absent, include_locals, unwind, must_change, note
+        self.raise_is_violation = raise_is_violation
 
 
 CASES = []
@@ -87,6 +88,12 @@ def run_tv(prop, tier, seed, cases, rule, functions, bounds, assumptions, quick_
             continue
         if v in ('frontend-error', 'harness-exception'):
             raise RuntimeError(f'{key}: {v}: {rec.get("why")}\n{rec.get("tb", "")}')
+        if v == 'transform-raises' and CASES_BY_NAME[rec['case']].raise_is_violation:
+            # the operation under test must at least produce a result (e.g. pickling): concrete failure, replay = re-run
+            ctx.verdict('raises')
+            ctx.obligation(key)
+            ctx.candidate(f"{rec['group']}:raises:{rec['case']}", f"{key}: {rec['why']}", {'case': rec['case'], 'sizes': rec['sizes'], 'raises': True})
+            continue
         if v == 'transform-raises':
             ctx.not_encoded.append(f'{key}: transformation raised {rec["why"]}')
             continue
@@ -140,7 +147,9 @@ def replay_tv(path, cases):
             for si, s in enumerate(c.sizes):
                 if s == d['sizes']:
                     rec = _work((ci, si))
-                    print(rec.get('verdict'), rec.get('replay_msg'), rec.get('differences'))
+                    print(rec.get('verdict'), rec.get('replay_msg'), rec.get('differences'), rec.get('why'))
+                    if d.get('raises'):
+                        return 1 if rec.get('verdict') == 'transform-raises' else 0
                     return 1 if rec.get('verdict') == 'sat' and rec.get('replayed') else 0
     print('case not found')
     return 3
